@@ -335,6 +335,9 @@ MethodExprs(N) ==
   \cup {<<"t", op, <<"b", lop, <<"b", ">", C(p[1]), K(0)>>, <<"b", "<", C(p[2]), K(2)>>>>, C(p[1]), K(7)>> :
            op \in {"if_else", "where"}, lop \in LogicOps, p \in Pairs(N)}
   \cup {<<"in", C(c), <<1, 3>>>> : c \in N}
+  \* methods of fractions (halves and quarters: exact ties for round), is_nan
+  \cup {<<"uq", op, <<"b", "/", C(c), K(d)>>>> : op \in QOps, c \in N, d \in {2, 4}}
+  \cup {<<"nan", C(c)>> : c \in N} \cup {<<"nan", <<"b", "/", C(c), K(2)>>>> : c \in N}
 \* text methods of the catalogue over the text columns: results land in a text column (t) or a numeric one (z)
 TextExprsT(S) ==
   {<<"cat", C(p[1]), C(p[2])>> : p \in Pairs(S)} \cup {<<"cat", C(c), <<"ks", 9>>>> : c \in S}
